@@ -700,9 +700,12 @@ type cluster struct {
 
 	leaderOf []uint64    // by term; 0 = none seen
 	ledger   []ledgerEnt // by index
+	ownHist  bool        // leaderOf / ledger are private copies (copy on write)
 
 	viol  []violation // raised by the transition that produced this state
 	flags uint32
+
+	nodesArr [6]*node
 }
 
 func newCluster(s *sim, cfg *Cfg, bud *Budget, fifo bool) *cluster {
@@ -738,11 +741,24 @@ func (c *cluster) findMsg(seq uint16) int {
 
 func (c *cluster) clone() *cluster {
 	d := &cluster{sim: c.sim, cfg: c.cfg, bud: c.bud, fifo: c.fifo, nextSeq: c.nextSeq, used: c.used}
-	d.nodes = append(make([]*node, 0, len(c.nodes)), c.nodes...)
+	if len(c.nodes) <= len(d.nodesArr) {
+		d.nodes = d.nodesArr[:len(c.nodes)]
+		copy(d.nodes, c.nodes)
+	} else {
+		d.nodes = append([]*node(nil), c.nodes...)
+	}
 	d.pool = append(make([]pmsg, 0, len(c.pool)+4), c.pool...)
-	d.leaderOf = append(make([]uint64, 0, len(c.leaderOf)+1), c.leaderOf...)
-	d.ledger = append(make([]ledgerEnt, 0, len(c.ledger)+2), c.ledger...)
+	d.leaderOf, d.ledger = c.leaderOf, c.ledger // shared until written
 	return d
+}
+
+// histW makes the history variables private before the first write.
+func (c *cluster) histW() {
+	if !c.ownHist {
+		c.leaderOf = append(make([]uint64, 0, len(c.leaderOf)+1), c.leaderOf...)
+		c.ledger = append(make([]ledgerEnt, 0, len(c.ledger)+2), c.ledger...)
+		c.ownHist = true
+	}
 }
 
 // step returns the successor of c under event e, or nil if e is not enabled in c.
